@@ -318,6 +318,10 @@ pub fn run_supply_check(check: &str, tier: Tier, seed: u64, index: u64, scratch:
             }
         }
     }
+    if check == "C15" && fr.chance(1, 3) {
+        // the caller asks for a named summary
+        t.step_name = Some(gen::simple_name(&mut fr));
+    }
     let baseline_trace = t.clone();
     let (primary, secondary) = faults_for(check);
     let n_faults = 1 + fr.weighted(&[60, 30, 10]);
